@@ -203,6 +203,8 @@ twin('C01', 'pyiga/codegen/cython.py', 'pyiga.codegen.cython.AsmGenerator.gen_pd
 twin('C05', 'pyiga/hierarchical.py', 'pyiga.hierarchical.HSplineFunc.grid_jacobian', r"return sum\(f\.grid_jacobian\(gridaxes\)\n\s*for f in self\.hs\.coeffs_to_levelwise_funcs\(self\.coeffs, truncate=self\.truncate\)\)",
      'funcs = self.hs.coeffs_to_levelwise_funcs(self.coeffs, truncate=self.truncate)\n        return sum(f.grid_jacobian(gridaxes) for f in funcs)', 'level-wise functions through a local')
 
+brk('C18', 'R18.9', 'pyiga/tensor.py', 'pyiga.tensor.CanonicalOperator.__init__', r"self\.terms = \[tuple\(t\) for t in terms\]", 'self.terms = list(terms)', 'terms stored as passed: eye() hands in lists')
+twin('C18', 'pyiga/tensor.py', 'pyiga.tensor.CanonicalOperator.__init__', r"self\.terms = \[tuple\(t\) for t in terms\]", 'self.terms = list(tuple(term) for term in terms)', 'normalisation spelled with a generator')
 # ---- rules added after the first wave of independently seeded changes (seeded/S01..S08): variants of those changes, and
 #      behaviour-preserving rewrites of the same constructs
 brk('C03', 'R03.7', 'pyiga/_hdiscr.py', 'pyiga._hdiscr.HDiscretization.assemble_matrix', r"(\n(\s*)for lv in range\(max\(0, k - hs\.disparity\), k\):)", r"\1\n\2    if not neighbors[k][lv]:\n\2        continue", 'coarser level skipped inside the accumulation loop')
